@@ -300,7 +300,17 @@ class Interp:
         return any(t in chain for t in types)
 
     # ------------------------------------------------------------------ calls
+    def _pycallable(self, v: Any) -> Any:
+        """A Python callable for an interpreter-level callable (so that sorted(key=...), map(...), min(key=...) can use it)."""
+        if isinstance(v, (FuncVal, Closure, ClassVal, AObj)) or v is _BUILTINS["str"] or v is _BUILTINS["isinstance"]:
+            return lambda *a, **k: self.call(v, list(a), k)
+        return v
+
     def call(self, fv: Any, args: list[Any], kwargs: dict[str, Any]) -> Any:
+        if fv is _BUILTINS["str"]:
+            return self.str_strict(args[0]) if args else ""
+        if fv is _BUILTINS["isinstance"]:
+            return self.isinstance_(args[0], args[1])
         if isinstance(fv, Closure):
             return self.call_func(fv.func, args, kwargs, parent=fv.env)
         if isinstance(fv, FuncVal):
@@ -320,6 +330,10 @@ class Interp:
             if m is not None:
                 return self.call_func(m, [fv] + args, kwargs)
         if callable(fv):
+            if "key" in kwargs:
+                kwargs = dict(kwargs, key=self._pycallable(kwargs["key"]))
+            if fv in (_BUILTINS["map"], _BUILTINS["filter"]) and args:
+                args = [self._pycallable(args[0])] + [self.iterate(a) for a in args[1:]]
             if any(isinstance(a, AObj) for a in args) and fv in _ITERABLE_BUILTINS:
                 args = [self.iterate(a) if isinstance(a, AObj) and self.repo.find_method(a.cls, "__iter__") is not None else a for a in args]
             try:
@@ -455,10 +469,17 @@ class Interp:
                     new = cur
                 else:
                     new = cur + v
-            elif isinstance(st.op, ast.Sub):
-                new = cur - v
+            elif isinstance(cur, set) and isinstance(st.op, (ast.BitOr, ast.BitAnd, ast.Sub)):
+                # in-place set operators keep the object
+                if isinstance(st.op, ast.BitOr):
+                    cur |= set(v)
+                elif isinstance(st.op, ast.BitAnd):
+                    cur &= set(v)
+                else:
+                    cur -= set(v)
+                new = cur
             else:
-                raise Unsupported("augassign op")
+                new = self.binop(st.op, cur, v)
             self.assign(st.target, new, env)
         elif isinstance(st, ast.If):
             if self.truth(self.eval(st.test, env)):
@@ -647,7 +668,12 @@ class Interp:
                 else:
                     o.attrs[t.attr] = v
             elif isinstance(o, ClassVal):
-                raise Unsupported("assignment to class attribute")
+                # the class object is shared by the whole evaluation (one "process")
+                for k in self.repo.mro(o.cls):
+                    if t.attr in self.class_ns(k) or k is self.repo.mro(o.cls)[-1]:
+                        break
+                owner = next((k for k in self.repo.mro(o.cls) if t.attr in self.class_ns(k)), o.cls)
+                self.class_ns(owner)[t.attr] = v
             else:
                 raise Unsupported(f"attribute store on {type(o).__name__}")
         elif isinstance(t, ast.Subscript):
@@ -695,6 +721,8 @@ class Interp:
             m = self.repo.find_method(v.cls, "__iter__")
             if m is not None:
                 return list(self.iterate(self.call_func(m, [v], {})))
+        if isinstance(v, ClassVal) and self._is_enum(v.cls):
+            return [EnumVal(v.cls, nm, self.fold.try_expr(v.cls.mod, ex)) for nm, ex in v.cls.class_assigns.items() if not nm.startswith("_")]
         if isinstance(v, (zip, enumerate, map, filter)) or hasattr(v, "__next__"):
             return list(v)
         if hasattr(v, "__iter__") and not isinstance(v, (AObj,)):
@@ -964,6 +992,18 @@ class Interp:
                 raise PyExc("TypeError", str(ex))
         if fv is _BUILTINS["str"]:
             return self.str_strict(args[0]) if args else ""
+        if fv is _BUILTINS["getattr"]:
+            try:
+                return self.getattr_(args[0], args[1])
+            except (PyExc, Unsupported):
+                if len(args) > 2:
+                    return args[2]
+                raise
+        if fv is _BUILTINS["setattr"]:
+            if isinstance(args[0], AObj):
+                args[0].attrs[args[1]] = args[2]
+                return None
+            raise Unsupported("setattr on a native value")
         if fv is _BUILTINS["hasattr"]:
             o, a = args
             if o is None or isinstance(o, (int, str, float, bool, list, dict, tuple, set)):
@@ -1016,14 +1056,16 @@ class Interp:
             elif isinstance(p, ast.FormattedValue):
                 try:
                     v = self.eval(p.value, env)
+                    if p.conversion == 114:  # !r
+                        v = self.repr_strict(v)
+                    elif p.conversion in (115, 97):  # !s / !a
+                        v = self.str_strict(v)
                     if p.format_spec is not None:
                         spec = self.eval(p.format_spec, env)
                         if isinstance(v, (int, str, float)) and not isinstance(v, bool):
                             out.append(format(v, spec))
                         else:
                             out.append(format(self.str_strict(v), spec))
-                    elif p.conversion == 114:  # !r
-                        out.append(repr(v) if isinstance(v, (int, str, float, bool, type(None))) else self.str_strict(v))
                     else:
                         out.append(self.str_strict(v))
                 except Unsupported:
@@ -1058,6 +1100,8 @@ class Interp:
             return repr(v)
         if isinstance(v, PurePath):
             return str(v)
+        if isinstance(v, PyExc):
+            return v.msg
         if isinstance(v, (list, tuple)):
             inner = ", ".join(self.repr_strict(x) for x in v)
             return f"[{inner}]" if isinstance(v, list) else (f"({inner},)" if len(v) == 1 else f"({inner})")
@@ -1111,27 +1155,50 @@ class Interp:
         v = self.eval(e.operand, env)
         if isinstance(e.op, ast.Not):
             return not self.truth(v)
+        if isinstance(v, AObj):
+            raise PyExc("TypeError", "bad operand type for a unary operator")
         if isinstance(e.op, ast.USub):
             return -v
+        if isinstance(e.op, ast.UAdd):
+            return +v
+        if isinstance(e.op, ast.Invert):
+            return ~v
         raise Unsupported("unary op")
 
-    def ev_BinOp(self, e: ast.BinOp, env: Env) -> Any:
-        l = self.eval(e.left, env)
-        r = self.eval(e.right, env)
+    _BINOPS = {ast.Add: operator.add, ast.Sub: operator.sub, ast.Mult: operator.mul, ast.Div: operator.truediv, ast.FloorDiv: operator.floordiv, ast.Mod: operator.mod,
+               ast.Pow: operator.pow, ast.BitAnd: operator.and_, ast.BitOr: operator.or_, ast.BitXor: operator.xor, ast.LShift: operator.lshift, ast.RShift: operator.rshift}
+
+    def binop(self, op: ast.operator, l: Any, r: Any) -> Any:
+        if isinstance(op, ast.Mod) and isinstance(l, str):
+            args = r if isinstance(r, tuple) else (r,)
+            try:
+                return l % tuple(a if isinstance(a, (int, float, str)) and not isinstance(a, bool) else self.str_strict(a) for a in args)
+            except (TypeError, ValueError) as ex:
+                raise PyExc("TypeError", str(ex))
+        fn = self._BINOPS.get(type(op))
+        if fn is None:
+            raise Unsupported(f"binary operator {type(op).__name__}")
+        if isinstance(l, AObj) or isinstance(r, AObj):
+            dunder = {ast.Add: "__add__", ast.Sub: "__sub__", ast.Mult: "__mul__", ast.Mod: "__mod__"}.get(type(op))
+            if dunder and isinstance(l, AObj):
+                m = self.repo.find_method(l.cls, dunder)
+                if m is not None:
+                    return self.call_func(m, [l, r], {})
+            raise PyExc("TypeError", f"unsupported operand type(s) for {type(op).__name__}")
         try:
-            if isinstance(e.op, ast.Add):
-                if isinstance(l, list) and isinstance(r, list):
-                    return l + r
-                return l + r
-            if isinstance(e.op, ast.Sub):
-                return l - r
-            if isinstance(e.op, ast.Mult):
-                return l * r
-            if isinstance(e.op, ast.Mod):
-                return l % r if not isinstance(l, str) else "<message>"
+            return fn(l, r)
         except TypeError as ex:
             raise PyExc("TypeError", str(ex))
-        raise Unsupported("binary op")
+        except ZeroDivisionError as ex:
+            raise PyExc("ZeroDivisionError", str(ex))
+
+    def ev_BinOp(self, e: ast.BinOp, env: Env) -> Any:
+        return self.binop(e.op, self.eval(e.left, env), self.eval(e.right, env))
+
+    def ev_NamedExpr(self, e: ast.NamedExpr, env: Env) -> Any:
+        v = self.eval(e.value, env)
+        self.assign(e.target, v, env)
+        return v
 
     def ev_IfExp(self, e: ast.IfExp, env: Env) -> Any:
         return self.eval(e.body if self.truth(self.eval(e.test, env)) else e.orelse, env)
@@ -1209,9 +1276,10 @@ class Interp:
         if isinstance(e.slice, ast.Slice):
             lo = self.eval(e.slice.lower, env) if e.slice.lower is not None else None
             hi = self.eval(e.slice.upper, env) if e.slice.upper is not None else None
+            st = self.eval(e.slice.step, env) if e.slice.step is not None else None
             if not isinstance(base, (list, str, tuple)):
                 raise Unsupported("slice of non-sequence")
-            return base[lo:hi]
+            return base[lo:hi:st]
         idx = self.eval(e.slice, env)
         if isinstance(base, (ClassVal, _External)):
             return base  # Generic[...] subscription
@@ -1274,11 +1342,22 @@ class Interp:
 
     def ev_Lambda(self, e: ast.Lambda, env: Env) -> Any:
         params = [a.arg for a in e.args.args]
+        defaults = [self.eval(d, env) for d in e.args.defaults]  # evaluated once, where the lambda is created
 
-        def fn(*args: Any) -> Any:
+        def fn(*args: Any, **kwargs: Any) -> Any:
             sub = Env(env.mod, {}, env.func, env)
-            for p, a in zip(params, args):
-                sub.locals[p] = a
+            dstart = len(params) - len(defaults)
+            for i, p in enumerate(params):
+                if i < len(args):
+                    sub.locals[p] = args[i]
+                elif p in kwargs:
+                    sub.locals[p] = kwargs[p]
+                elif i >= dstart:
+                    sub.locals[p] = defaults[i - dstart]
+                else:
+                    raise PyExc("TypeError", f"missing argument {p} of a lambda")
+            if e.args.vararg:
+                sub.locals[e.args.vararg.arg] = tuple(args[len(params):])
             return self.eval(e.body, sub)
         return fn
 
@@ -1483,6 +1562,15 @@ def _b_open(*a: Any, **k: Any) -> Any:
 
 _BUILTINS: dict[str, Any] = {
     "open": _b_open,
+    "divmod": divmod,
+    "round": round,
+    "pow": pow,
+    "chr": chr,
+    "ord": ord,
+    "float": float,
+    "getattr": object(),
+    "setattr": object(),
+    "callable": callable,
     "next": next,
     "iter": _b_iter,
     "sum": sum,
